@@ -341,4 +341,19 @@ pub fn run(r: &mut Runner) {
             }
         });
     }
+    {
+        // relational pairs: (x, x), (x, -x), (x, 2x), (x, x/2), (x, neighbours of x), (x, hi(x)), (x, +-1) in both orders
+        let xs: Vec<[f64; 2]> = { let mut g = crate::fx::grid(&[-1000, -500, -10, -1, 0, 1, 2, 10, 500, 959], quick, 151); g.retain(|w| w[0] > 0.0); g.extend([[1.0, 0.0], [0.0, 0.0], [-0.0, 0.0], [-1.0, 0.0], [-2.5, 0.0], [2.0, 0.0], [10.0, 0.0]]); g };
+        let ps = crate::fx::relational_pairs(&xs);
+        let np = ps.len();
+        r.notes.push(format!("relational pairs for log: {} pairs from {} operands (x with x, -x, 2x, x/2, its double-double neighbours, its high word, +-1; both argument orders)", np, xs.len()));
+        r.par("relational pairs: log", np.div_ceil(64), 2 * np as u64, |c, l| {
+            for i in (c * 64)..((c + 1) * 64).min(np) {
+                let (a, b) = ps[i];
+                let _ = &l;
+                rec.record(l, (9u64 << 55) + 2 * i as u64, judge_log(a, b));
+                rec.record(l, (9u64 << 55) + 2 * i as u64 + 1, judge_log(b, a));
+            }
+        });
+    }
 }
